@@ -114,12 +114,27 @@ def run(ctx):
                             if isinstance(st_, Op) and key(st_).startswith("ongoing(") and wst[0] in key(st_):
                                 cands.append(key(st_))
                 ogk = cands[0] if cands else og
-                final = None          # can the winning assignment give 1 while the FSM is NOT in the write state?
+                # every state the FSM can be in after the write command was accepted (the write state and any state reachable from it before the idle state)
+                edges_, _ = fsm_graph(v, f_)
+                post = {wst[0]}
+                grow = True
+                while grow:
+                    grow = False
+                    for s0, d0, _l in edges_:
+                        if s0 in post and d0 != f_.reset_state and d0 not in post:
+                            post.add(d0); grow = True
+                envp = {ogk: False}
                 for l in ds_:
-                    fires = leaf_fires(v, l, {ogk: False})
+                    for t_ in [l.value] + [c_ for c_, _ in l.guards]:
+                        for st_ in subterms(t_):
+                            if isinstance(st_, Op) and key(st_).startswith("ongoing(") and any(repr(p_) in key(st_) or ("'%s'" % p_) in key(st_) for p_ in post):
+                                envp[key(st_)] = False
+                final = None          # can the winning assignment give 1 while the FSM is in none of those states?
+                for l in ds_:
+                    fires = leaf_fires(v, l, envp)
                     if fires is False:
                         continue
-                    val = eval3(l.value, {ogk: False})
+                    val = eval3(l.value, envp)
                     if fires is True:
                         final = val
                     else:
@@ -213,9 +228,17 @@ def run(ctx):
     afill = [l for l in v.fsm_leaves(f) if l.kind == "nextvalue" and cache_addr and key(l.target) == cache_addr[0]]
     cmd_addr = [l for l in v.fsm_leaves(f) if l.kind == "assign" and key(l.target) == "port.cmd.addr" and l.state in rd_states]
     ob2.instance("cache fill", {"data": [str(x) for x in fills], "addr": [str(x) for x in afill]})
-    if len(fills) != 1 or len(afill) != 1 or not cmd_addr or key(afill[0].value) != key(cmd_addr[0].value) or \
-            "port.rdata.valid" not in v.guard_keys(fills[0], False) or v.guard_keys(fills[0], False) != v.guard_keys(afill[0], False):
-        ob2.refute("cache-fill", "the read cache is not filled with port.rdata.data together with the address used for the read command", None)
+    if len(fills) != 1 or len(afill) != 1 or not cmd_addr:
+        ob2.unknown("read-cache fill site not identified (data fills %d, address fills %d, read-command address drivers %d)" % (len(fills), len(afill), len(cmd_addr)))
+    elif "port.rdata.valid" not in v.guard_keys(fills[0], False) or v.guard_keys(fills[0], False) != v.guard_keys(afill[0], False):
+        ob2.refute("cache-fill", "the read cache data is loaded under %s but its address tag under %s: the tag and the data can belong to different reads" %
+                   (sorted(v.guard_keys(fills[0], False)), sorted(v.guard_keys(afill[0], False))), fills[0].loc)
+    elif not any(key(afill[0].value) == key(c_.value) for c_ in cmd_addr):
+        if len(cmd_addr) == 1:
+            ob2.refute("cache-fill", "the read cache is tagged with %s but the read command was issued for %s: a later hit returns another word's data" %
+                       (key(afill[0].value), key(cmd_addr[0].value)), afill[0].loc)
+        else:
+            ob2.unknown("read-cache tag %s matches none of the %d read-command address drivers %s" % (key(afill[0].value), len(cmd_addr), [key(c_.value) for c_ in cmd_addr]))
     ncyc = [i for i in inval if i.state == idle and v.guard_keys(i, False) == {"~" + CYC}]
     if not ncyc:
         ob2.refute("cyc-invalidate", "the read cache is not invalidated when the master ends the cycle (~cyc)", None)
@@ -259,7 +282,9 @@ def run(ctx):
                     lanes_w[i] = (b, key(l.value))
     ob3.instance("lane placement", {"data": lanes_d, "we": lanes_w})
     for i in range(4):
-        if lanes_d.get(i) != ((32 * i, 32 * (i + 1)), "wishbone.dat_w") or lanes_w.get(i) != ((4 * i, 4 * (i + 1)), "wishbone.sel"):
+        if lanes_d.get(i) is None or lanes_w.get(i) is None:
+            ob3.unknown("lane %d: placement of the bus data / byte enables into the wide word not found in the Case-per-lane form" % i)
+        elif lanes_d.get(i) != ((32 * i, 32 * (i + 1)), "wishbone.dat_w") or lanes_w.get(i) != ((4 * i, 4 * (i + 1)), "wishbone.sel"):
             ob3.refute("lane:%d" % i, "lane %d: data goes to %s and byte enables to %s, expected bits [%d,%d) / [%d,%d)" %
                        (i, lanes_d.get(i), lanes_w.get(i), 32 * i, 32 * (i + 1), 4 * i, 4 * (i + 1)), None)
     clr = {key(l.target) for l in v.fsm_leaves(f) if l.kind == "nextvalue" and is0(l.value) and "port.wdata.ready" in v.guard_keys(l, False)}
@@ -267,9 +292,22 @@ def run(ctx):
     wr_states = {l.state for l in v.fsm_leaves(f) if l.kind == "assign" and key(l.target) in ("port.cmd.we", "port.wdata.valid") and is1(l.value)}
     wd = [l for l in v.fsm_leaves(f) if l.kind == "assign" and key(l.target) in ("port.wdata.data", "port.wdata.we") and l.state in wr_states]
     m = {key(l.target): key(l.value) for l in wd}
-    need_clr = {WV} | set(m.values())
-    if len(m) != 2 or not need_clr <= clr or len(clr) < 4:
-        ob3.refute("merge-clear", "the merge registers %s are not all cleared when the write data is accepted (cleared: %s)" % (sorted(need_clr), sorted(clr)), None)
+    # a merge register must be cleared at the flush if (and only if) later beats are OR-ed into it; a register whose lanes are overwritten beat by beat needs no
+    # clearing (its stale lanes are protected by the byte enables, which do have to be cleared)
+    def or_merged(rk):
+        for l_ in v.fsm_leaves(f):
+            if l_.kind == "nextvalue" and key(l_.target) == rk and isinstance(l_.value, V):
+                if any(isinstance(t_, Op) and t_.op == "|" and any(key(a_) == rk for a_ in t_.args) for t_ in subterms(l_.value)):
+                    return True
+        return False
+    accum = {key(l_.target) for l_ in v.fsm_leaves(f) if l_.kind == "nextvalue" and isinstance(l_.target, (Obj, Sym)) and or_merged(key(l_.target))}
+    merge_regs = set(m.values()) | (set(support(cm)) if cm is not None else set())       # registers of the write-merge path only (not e.g. the abort flag)
+    need_clr = {WV} | (accum & merge_regs) | ({m["port.wdata.we"]} if "port.wdata.we" in m else set())
+    if len(m) != 2:
+        ob3.unknown("write-data registers of the flush state not identified (%s)" % m)
+    elif not need_clr <= clr:
+        ob3.refute("merge-clear", "the merge registers %s are not all cleared when the write data is accepted (cleared: %s): bytes of the flushed word are OR-ed into / enabled "
+                   "for the next one" % (sorted(need_clr), sorted(clr)), None)
     # ---- C10.4 narrow ----
     wa = WIDE_T
     na = ch = None
